@@ -270,3 +270,5 @@ def run(ck):
     ck.run_rule("C02.R2", "bytes/address accumulator pairing (linking = concatenation)", 5, c02.rule_R2)
     ck.run_rule("C02.R6", "address continuation across included and linked files", 4, c02.rule_R6)
     ck.run_rule("C02.R7", "linking F1 F2 ... = concatenation at chained addresses", 3, c02.rule_R7)
+    from . import c10
+    ck.run_rule("G6.tab", "own-file and exported symbol tables fold case alike (a reference resolved across files resolves as it does inside one file)", 10, c10.rule_tables)
